@@ -250,3 +250,133 @@ Proof.
   destruct l as [|r l]; [eexists; split; [reflexivity|exact I]|].
   eexists; split; [reflexivity|]. cbn [unpacked_sane]. repeat split; try lia. discriminate.
 Qed.
+
+(* ================= Part B: names laid out in a datagram decode to their labels ================= *)
+(* Specification vocabulary (independent of the decoder): `name_at buf d off labels e` — the datagram holds at
+   offset `off` an RFC 1035 encoding of the name `labels`: labels stored in line, ended either by the root label or
+   by a compression pointer to an offset where the REST of the name is encoded (at most `d` pointers in a row are
+   followed); `e` is the offset behind the part stored in line. A pointer's target must denote at least one label
+   (see C37_name_ptr_to_root_refuted for what happens otherwise). *)
+Inductive name_at (buf : bytes) : nat -> N -> list bytes -> N -> Prop :=
+| na_root : forall d off, nthN off buf = Some 0 -> name_at buf d off [] (off + 1)
+| na_label : forall d off l rest e,
+    1 <= lenN l -> lenN l <= 63 ->
+    nthN off buf = Some (lenN l) ->
+    rd_range buf (off + 1) (lenN l) = Some l ->
+    name_at buf d (off + 1 + lenN l) rest e ->
+    name_at buf d off (l :: rest) e
+| na_ptr : forall d off a b labels e',
+    nthN off buf = Some a -> 191 < a -> nthN (off + 1) buf = Some b ->
+    labels <> [] ->
+    name_at buf d ((a * 256 + b) mod 16384) labels e' ->
+    name_at buf (S d) off labels (off + 2).
+
+(* octets the labels occupy in a name buffer / on the wire without the root: sum of (length + 1) *)
+Fixpoint wire (labels : list bytes) : N :=
+  match labels with [] => 0 | l :: r => lenN l + 1 + wire r end.
+
+Fixpoint dotted (labels : list bytes) : bytes :=
+  match labels with [] => [] | l :: r => l ++ [46] ++ dotted r end.
+
+Lemma name_at_start buf d off labels e : name_at buf d off labels e -> off < lenN buf.
+Proof. intros H. destruct H; eapply nthN_in_range; eassumption. Qed.
+
+Lemma removelast_app_dot (a : bytes) : removelast (a ++ [46]) = a.
+Proof. apply removelast_last. Qed.
+
+Lemma removelast_dotted acc l r : removelast (acc ++ dotted (l :: r)) = acc ++ join_dots (l :: r).
+Proof.
+  revert acc l. induction r as [|l2 r IH]; intros acc l.
+  - cbn [dotted join_dots app]. rewrite app_assoc. apply removelast_last.
+  - change (dotted (l :: l2 :: r)) with (l ++ [46] ++ dotted (l2 :: r)).
+    change (join_dots (l :: l2 :: r)) with (l ++ [46] ++ join_dots (l2 :: r)).
+    rewrite !app_assoc. rewrite <- (app_assoc acc l [46]). rewrite (IH (acc ++ l ++ [46]) l2).
+    reflexivity.
+Qed.
+
+(* the destination contents the decoder must produce *)
+Definition name_result (acc : bytes) (no : N) (labels : list bytes) : bytes :=
+  match labels with
+  | [] => if no =? 0 then acc else removelast acc
+  | _ => removelast (acc ++ dotted labels)
+  end.
+
+Lemma name_loop_decodes : forall buf d off labels e,
+  name_at buf d off labels e ->
+  forall fuel rdl acc no ns cap rdepth,
+    no + wire labels < ns -> ns <= cap ->
+    N.of_nat d + rdepth <= 65 ->
+    rdl + wire labels < 65536 ->
+    (ns - no) + (66 - rdepth) < N.of_nat fuel ->
+    name_loop fuel buf (lenN buf) off rdl acc no ns cap rdepth =
+    Ok (name_result acc no labels, e, rdl + wire labels).
+Proof.
+  intros buf d off labels e H.
+  induction H as [d off Hc | d off l rest e Hl1 Hl2 Hc Hr Hrest IH | d off a b labels e' Ha Hgt Hb Hne Htgt IH];
+    intros fuel rdl acc no ns cap rdepth Hfit Hcap Hdepth Hrdl Hfuel;
+    (destruct fuel as [|f]; [lia|]); cbn [name_loop].
+  - (* root label *)
+    pose proof (nthN_in_range _ _ _ Hc) as Hin.
+    destruct (lenN buf <=? off) eqn:E0; [lia|]. rewrite Hc.
+    cbn [wire] in *.
+    change (191 <? 0) with false. cbv iota.
+    change (dns_MAXLABELSZ <? 0) with false. cbv iota.
+    change (0 =? 0) with true. cbv iota.
+    unfold name_finish, name_result.
+    destruct (no =? 0) eqn:En.
+    + destruct (cap =? 0) eqn:Ec; [lia|]. repeat f_equal; lia.
+    + destruct (cap <? no) eqn:Ec; [lia|]. destruct (ns <? no) eqn:Ec2; [lia|]. repeat f_equal; lia.
+  - (* a label *)
+    pose proof (nthN_in_range _ _ _ Hc) as Hin.
+    pose proof (name_at_start _ _ _ _ _ Hrest) as Hnext.
+    destruct (lenN buf <=? off) eqn:E0; [lia|]. rewrite Hc.
+    cbn [wire] in *.
+    destruct (191 <? lenN l) eqn:E1; [lia|].
+    unfold dns_MAXLABELSZ. destruct (63 <? lenN l) eqn:E2; [lia|].
+    destruct (lenN l =? 0) eqn:E3; [lia|].
+    destruct (ns <? no + 1) eqn:E4; [lia|].
+    destruct (ns - no - 1 <? lenN l) eqn:E5; [lia|].
+    destruct (lenN buf <=? off + 1 + lenN l) eqn:E6; [lia|].
+    rewrite Hr.
+    destruct (cap <? no + lenN l + 1) eqn:E7; [lia|].
+    destruct (no + lenN l + 1 <? ns) eqn:E8; [|lia].
+    assert (Hm : (rdl + lenN l + 1) mod 65536 = rdl + lenN l + 1) by (apply N.mod_small; lia).
+    rewrite Hm.
+    rewrite (IH f (rdl + lenN l + 1) (acc ++ l ++ [46]) (no + lenN l + 1) ns cap rdepth) by lia.
+    f_equal. f_equal; [|lia]. f_equal.
+    unfold name_result.
+    destruct (no + lenN l + 1 =? 0) eqn:E9; [lia|].
+    destruct rest as [|l2 rest].
+    + cbn [dotted app]. reflexivity.
+    + change (dotted (l :: l2 :: rest)) with (l ++ [46] ++ dotted (l2 :: rest)).
+      rewrite !app_assoc. reflexivity.
+  - (* a compression pointer *)
+    pose proof (nthN_in_range _ _ _ Hb) as Hin.
+    pose proof (name_at_start _ _ _ _ _ Htgt) as Hp.
+    destruct (lenN buf <=? off) eqn:E0; [lia|]. rewrite Ha.
+    destruct (191 <? a) eqn:Eg; [|lia].
+    destruct (64 <? rdepth) eqn:E1; [lia|].
+    unfold dns_sizeof_ushort.
+    destruct (lenN buf <? off + 2) eqn:E2; [lia|].
+    unfold rd16. rewrite Ha, Hb.
+    destruct (lenN buf <=? (a * 256 + b) mod 16384) eqn:E3; [lia|].
+    destruct (ns <? no) eqn:E4; [lia|].
+    destruct (cap <? no) eqn:E5; [lia|].
+    destruct (ns - no =? 0) eqn:E6; [lia|].
+    rewrite (IH f rdl acc 0 (ns - no) (cap - no) (rdepth + 1)) by lia.
+    f_equal. f_equal. f_equal.
+    unfold name_result. destruct labels; [contradiction|reflexivity].
+Qed.
+
+Theorem name_unpack_decodes : forall buf d off labels e ns cap,
+  name_at buf d off labels e ->
+  (d <= 65)%nat -> wire labels < ns -> ns <= cap -> ns <= 65536 ->
+  name_unpack buf (lenN buf) off ns cap 0 = Ok (join_dots labels, e, wire labels).
+Proof.
+  intros buf d off labels e ns cap H Hd Hw Hcap Hns.
+  unfold name_unpack. destruct (ns =? 0) eqn:E; [lia|].
+  rewrite (name_loop_decodes buf d off labels e H) by (unfold name_fuel; lia).
+  replace (0 + wire labels) with (wire labels) by lia.
+  unfold name_result. destruct labels as [|l r]; [reflexivity|].
+  rewrite (removelast_dotted [] l r). reflexivity.
+Qed.
